@@ -15,7 +15,8 @@ def add_gap_comments(P, rng, every=False, p=.15):
     for t in list(P.index()):
         if t.kind == "comment": continue
         if every or rng.random() < p:
-            n += 1; c = Tok("comment", "// gap %d %s" % (n, rng.choice(["", "ü€", "x := 1;", "// again"]))); t.lead.append(c)
+            for _ in range(rng.choice([1, 1, 1, 2, 3])):        # one or several comment lines in the same gap
+                n += 1; c = Tok("comment", "// gap %d %s" % (n, rng.choice(["", "ü€", "x := 1;", "// again"]))); t.lead.append(c)
     if every or rng.random() < p:
         P.trail.append(Tok("comment", "// trailing %d" % n))
     P.index()
